@@ -300,7 +300,8 @@ def drive(binary, reqs, leaks=False, timeout=900, args=(), env=None):
         if r["rc"] == 0 and not r["timed_out"]:
             break
         idx = {q["n"]: i for i, q in enumerate(todo)}
-        info = {"rc": r["rc"], "stderr": r["err"][-8000:], "timed_out": r["timed_out"]}
+        err = r["err"]
+        info = {"rc": r["rc"], "stderr": err if len(err) < 9000 else err[:4000] + "\n[...]\n" + err[-4500:], "timed_out": r["timed_out"], "sig": san_signature(err)}
         info.update(extra)
         if cur is not None and cur in idx:
             crashes.append((todo[idx[cur]], info))
@@ -334,4 +335,4 @@ def drive_parallel(binary, reqs, jobs=None, **kw):
 def crash_sig(info):
     if info.get("timed_out"):
         return "timeout"
-    return san_signature(info.get("stderr", "")) or "abnormal-exit rc=%s" % info.get("rc")
+    return info.get("sig") or san_signature(info.get("stderr", "")) or "abnormal-exit rc=%s" % info.get("rc")
